@@ -82,4 +82,53 @@ for _pid, _text in [
         'level_note': 'No unbounded claim. The scope is stated in the evidence file (bounded_scope).',
     }
 
+PROPS['C05'].update({
+    'units': ['lindig.neighbors', 'contexts.neighbors', 'contexts._neighbors', 'matrices.doubleprime'] + GALOIS,
+    'level': 'other',
+    'proved_part': 'lindig.neighbors yields exactly the upper covers of an extent, each once (loop invariant + yields clause, '
+                   'lemma L-LINDIG and corollary cover_unique_gen proved in Lean); Context.neighbors = covers of the generated concept',
+    'bounded_part': 'stored upper/lower_neighbors links of lattice members and their converse (established by lindig.lattice/Lattice.__init__)',
+    'technique': 'contract-based deductive verification of the Lindig step (invariant, yields clause, Lean-proved lemma instance); bounded stand-in for stored links',
+    'level_text': 'The cover computation is proved for all contexts and all extents; the stored links built by the worklist are bounded.',
+    'level_note': 'SMT<->Lean transcription of L-LINDIG by hand; bitsets atomic() contract assumed; stored links bounded only.',
+})
+PROPS['C03'].update({
+    'units': ['lindig.neighbors', 'matrices.doubleprime'],
+    'level': 'other',
+    'proved_part': 'the Lindig step (neighbors): exactly the upper covers; Lean lemma L-WORKLIST (a family containing Cl(0) and closed under covers is all of Ext)',
+    'bounded_part': 'the worklist of lindig.lattice and the constructor Lattice.__init__ (exhaustive <= 3x3 quick / n*m <= 12 thorough, stated families beyond)',
+    'technique': 'contract-based deductive verification of lindig.neighbors + Lean lemmas; bounded stand-in for the worklist and constructor',
+    'level_text': 'neighbors proved; worklist and constructor bounded, not proved.',
+    'level_note': 'The worklist loop of lindig.lattice (aliased growing lists, heap) is not under contract yet.',
+})
+PROPS['C09'].update({
+    'units': ['common.iterunion'],
+    'level': 'other',
+    'proved_part': 'iterunion yields exactly the items reachable from the seeds, in strictly increasing key order, each once '
+                   '(heap/ghost-set invariant I1-I5, lemma L-REACH proved in Lean), for any sortkey/next_concepts satisfying the stated requirements',
+    'bounded_part': 'the wrappers upset/downset/upset_union/downset_union instantiate it correctly (index/upper, dindex/lower), tools.maximal',
+    'technique': 'contract-based deductive verification of the worklist generator iterunion (ghost sets, heap contract, Lean lemma); bounded stand-in for wrappers',
+    'level_text': 'The traversal engine is proved for all inputs satisfying its precondition; the four wrappers and maximal are bounded.',
+    'level_note': 'heapq contract assumed (multiplicities abstracted); termination not proved; wrappers bounded.',
+})
+PROPS['C14'].update({
+    'units': ['contexts.__eq__', 'contexts.__ne__'],
+    'level': 'other',
+    'proved_part': 'Context.__eq__/__ne__: equal exactly when the (objects, properties, bools) triples are equal; NotImplemented for non-contexts',
+    'bounded_part': 'derivations copy/union/intersection/take/transposed/inverted (tables, aliasing), Context<->Definition round trip, shape/fill_ratio/crc32 agreement',
+    'technique': 'contract-based deductive verification of Context equality; bounded stand-in (model-based, exhaustive over a small universe) for the derivations',
+    'level_text': 'Context equality proved; derivations bounded.',
+    'level_note': 'The Definition derivations are heap-manipulating; not under contract yet.',
+})
+PROPS['C20'].update({
+    'units': ['visualize.lattice'],
+    'level': 'other',
+    'proved_part': 'the call trace of visualize.lattice on graphviz.Digraph: per concept one node, label edges exactly when labelled with the callbacks '
+                   'applied to exactly those names, one edge to each lower neighbour; nothing else; relative to LatInv.5/7',
+    'bounded_part': 'graphviz renders one statement per call (DOT source parsed back), LatInv establishment, Lattice.graphviz pass-through',
+    'technique': 'contract-based deductive verification of the Graphviz call trace (ghost trace, per-iteration segment obligation); bounded parse-back of the DOT source',
+    'level_text': 'Call trace proved relative to the lattice invariant and the assumed renderer; rendering bounded.',
+    'level_note': 'graphviz.Digraph is external (assumed contract, parsed back on the bounded side).',
+})
+
 NOT_APPLICABLE = {}
